@@ -1103,7 +1103,7 @@ Section DiskFacts.
 
   (* the put of the repaired code, in closed form *)
   Lemma disk_put_spec : forall st k v, disk_inv st ->
-    let files1 := aset k (v, d_clock st) (d_files st) in
+    let files1 := adel k (d_files st) ++ [(k, (v, d_clock st))] in
     exists files' l1,
       disk_put wl ls true st k v = (mkDisk files' (S (d_clock st)) l1 (d_max st), ONone)
       /\ disk_inv (mkDisk files' (S (d_clock st)) l1 (d_max st))
@@ -1113,14 +1113,16 @@ Section DiskFacts.
   Proof.
     intros st k v (NDk & NDc & LT & HL) files1.
     assert (NDk1 : NoDup (map fst files1)).
-    { unfold files1. rewrite keys_aset. destruct (amem k (d_files st)) eqn:E; auto.
-      apply NoDup_snoc; auto. now apply amem_false_In. }
+    { unfold files1. rewrite map_app, keys_adel. cbn [map fst]. apply NoDup_snoc; [now apply NoDup_qremove|].
+      rewrite In_qremove_iff by auto. tauto. }
     assert (NDc1 : NoDup (map ct files1)).
-    { unfold files1. apply NoDup_map_aset; auto. intros x Hx. rewrite Forall_forall in LT.
-      specialize (LT x Hx). unfold ct at 2. cbn. lia. }
+    { unfold files1. rewrite map_app. cbn [map]. apply NoDup_snoc; [now apply NoDup_map_adel|].
+      unfold ct at 1. cbn [snd]. intros H. apply in_map_iff in H. destruct H as [y [Hy Hin]]. apply In_adel in Hin.
+      rewrite Forall_forall in LT. specialize (LT y Hin). lia. }
     assert (LT1 : Forall (fun x => ct x < S (d_clock st)) files1).
-    { unfold files1. apply Forall_aset; [unfold ct; cbn; lia|]. eapply Forall_impl; [|exact LT].
-      cbn. intros. lia. }
+    { unfold files1. apply Forall_app. split.
+      - apply Forall_adel. eapply Forall_impl; [|exact LT]. cbn. intros. lia.
+      - constructor; [unfold ct; cbn; lia | constructor]. }
     destruct (front_put_ok (d_lru st) k v HL) as (l1 & El & Hl1).
     destruct (evict_if_needed_ok files1 (d_max st) NDk1 NDc1) as (files' & Ev & Inc & N1 & N2 & Bd & Pol).
     exists files', l1. unfold disk_put. fold files1. rewrite El. cbn [is_raised]. rewrite Ev.
@@ -1179,7 +1181,7 @@ Section DiskFacts.
      max_size files, and every file it deleted is older than every file it kept *)
   Theorem disk_policy : forall D m0 (ops : list (dop D)) k v,
     let st := final (disk_step wl ls true) (disk_open [] 0 m0) ops in
-    let written := aset k (v, d_clock st) (d_files st) in
+    let written := adel k (d_files st) ++ [(k, (v, d_clock st))] in
     let st' := fst (disk_put wl ls true st k v) in
     incl (d_files st') written
     /\ (forall n, d_max st = Some n -> length (d_files st') <= n)
@@ -1419,3 +1421,179 @@ Lemma disk_v0_filenotfound :
           [DOp (Put 0 1 tt); DOp (Put 1 2 tt); DOp (Put 2 3 tt); Reopen (Some 1); DOp (Put 3 4 tt)]
   = [ONone; ONone; ONone; ONone; Raised FileNotFoundError].
 Proof. reflexivity. Qed.
+
+(* ================================================================== DiskCache refines files-in-creation-order + LRU front *)
+From Coq Require Import Sorted.
+
+Definition strip (x : nat * (nat * nat)) : kv := (fst x, fst (snd x)).
+
+Lemma SS_snoc : forall l c, StronglySorted lt l -> Forall (fun y => y < c) l -> StronglySorted lt (l ++ [c]).
+Proof.
+  intros l c H. induction H as [|a l Hs IH Hf]; cbn; intros HF.
+  - constructor; constructor.
+  - inversion HF as [|? ? Ha Hl]; subst. constructor; auto. apply Forall_app. split; auto.
+Qed.
+
+Lemma SS_map_adel : forall k (files : list (nat * (nat * nat))),
+  StronglySorted lt (map ct files) -> StronglySorted lt (map ct (adel k files)).
+Proof.
+  intros k files. induction files as [|[k' vt] t IH]; cbn; auto. intros H.
+  inversion H as [|a l Hs Hf]; subst. destruct (Nat.eqb k k'); auto. cbn. constructor; auto.
+  rewrite Forall_forall in *. intros y Hy. apply in_map_iff in Hy. destruct Hy as [z [Hz Hin]].
+  apply In_adel in Hin. apply Hf. apply in_map_iff. eauto.
+Qed.
+
+Lemma SS_skipn : forall n (l : list nat), StronglySorted lt l -> StronglySorted lt (skipn n l).
+Proof.
+  induction n as [|n IH]; intros l H; cbn; auto. destruct l; auto. inversion H; subst. auto.
+Qed.
+
+Lemma argmin_t_head : forall rest b, Forall (fun x => snd b < snd x) rest -> argmin_t b rest = fst b.
+Proof.
+  induction rest as [|[k x] r IH]; intros b H; cbn [argmin_t]; auto.
+  inversion H as [|? ? Hx Hr]; subst. cbn [snd] in Hx.
+  destruct (x <? snd b) eqn:E; [apply Nat.ltb_lt in E; lia | apply IH; exact Hr].
+Qed.
+
+(* on a directory listed in order of writing the loop deletes the first n files *)
+Lemma evict_sorted : forall n files, n <= length files -> NoDup (map fst files) ->
+  StronglySorted lt (map ct files) -> evict_loop true n (map fst files) files = (skipn n files, None).
+Proof.
+  induction n as [|n IH]; intros files Hn ND SS; [reflexivity|].
+  destruct files as [|x0 r]; [cbn in Hn; lia|].
+  assert (G : forall y, In y (x0 :: r) -> aget (fst y) (x0 :: r) = Some (snd y))
+    by (intros; now apply aget_In_NoDup).
+  cbn [evict_loop].
+  rewrite (mapM_map _ _ _ (fun k => (k, match aget k (x0 :: r) with Some vt => snd vt | None => 0 end))).
+  2:{ intros k Hk. apply amem_In in Hk. destruct (amem_aget _ _ Hk) as [vt Hvt]. now rewrite Hvt. }
+  rewrite map_map. rewrite (map_ext_in _ (fun y => (fst y, ct y))).
+  2:{ intros y Hy. rewrite (G y Hy). reflexivity. }
+  cbn [map] in *. inversion SS as [|a l Hs Hf]; subst. inversion ND as [|a l Hn0 Hnd]; subst.
+  rewrite argmin_t_head.
+  2:{ cbn [snd]. apply Forall_map. rewrite Forall_forall in *. intros y Hy. cbn [snd]. apply Hf. now apply in_map. }
+  destruct x0 as [k0 vt0]. cbn [fst adel qremove]. rewrite !Nat.eqb_refl. cbn [skipn].
+  apply IH; auto. cbn in Hn. lia.
+Qed.
+
+Lemma strip_without_notin : forall k (t : list (nat * (nat * nat))), ~ In k (map fst t) ->
+  without k (map strip t) = map strip t.
+Proof.
+  intros k t. unfold without. induction t as [|[k2 vt2] t2 IH]; cbn; auto. intros N.
+  destruct (Nat.eqb k2 k) eqn:E; cbn.
+  - apply Nat.eqb_eq in E. subst. exfalso. auto.
+  - f_equal. auto.
+Qed.
+
+Lemma strip_adel : forall k (files : list (nat * (nat * nat))), NoDup (map fst files) ->
+  map strip (adel k files) = without k (map strip files).
+Proof.
+  intros k files ND. induction files as [|[k' vt] t IH]; cbn; auto.
+  inversion ND as [|? ? NI ND']; subst. rewrite (Nat.eqb_sym k k'). destruct (Nat.eqb k' k) eqn:E.
+  - apply Nat.eqb_eq in E. subst k'. rewrite <- (strip_without_notin k t NI) at 1.
+    unfold without. cbn [map filter strip fst]. try rewrite Nat.eqb_refl. reflexivity.
+  - cbn [map]. unfold without in *. cbn [map filter strip fst]. try rewrite E. cbn [negb]. f_equal. apply IH. exact ND'.
+Qed.
+
+Lemma lookup_strip : forall k (files : list (nat * (nat * nat))),
+  lookup k (map strip files) = option_map fst (aget k files).
+Proof.
+  intros k files. unfold lookup. induction files as [|[k' vt] t IH]; cbn; auto.
+  rewrite (Nat.eqb_sym k k'). destruct (Nat.eqb k' k); cbn; auto.
+Qed.
+
+Section DiskRefines.
+  Variable wl : bool.
+  Variable ls : nat.
+  Hypothesis Hls : wl = true -> 1 <= ls.
+
+  Definition disk_good (st : disk) : Prop := disk_inv ls st /\ StronglySorted lt (map ct (d_files st)).
+  Definition disk_abs (st : disk) : disk_spec :=
+    mkDS (map strip (d_files st)) (lru_abs (d_lru st)) (d_max st).
+
+  Lemma front_put_refines : forall l k v, lru_inv ls l ->
+    front_put wl ls (lru_abs l) k v = lru_abs (fst (if wl then lru_put ls l k v else (l, ONone))).
+  Proof.
+    intros l k v Hl. unfold front_put. destruct wl eqn:E; auto.
+    rewrite (lru_step_refines unit ls l (Put k v tt) (Hls eq_refl) Hl). reflexivity.
+  Qed.
+
+  Lemma disk_step_refines : forall D st (o : dop D), disk_good st ->
+    disk_good (fst (disk_step wl ls true st o))
+    /\ disk_spec_step wl ls (disk_abs st) o = (disk_abs (fst (disk_step wl ls true st o)), snd (disk_step wl ls true st o)).
+  Proof.
+    intros D st o [Hinv SS]. pose proof Hinv as (NDk & NDc & LT & HL).
+    destruct o as [[k v d|k|k| |]|m]; cbn [disk_step disk_spec_step].
+    - (* put *)
+      unfold disk_put. set (files1 := adel k (d_files st) ++ [(k, (v, d_clock st))]).
+      assert (NDk1 : NoDup (map fst files1)).
+      { unfold files1. rewrite map_app, keys_adel. cbn [map fst]. apply NoDup_snoc; [now apply NoDup_qremove|].
+        rewrite In_qremove_iff by auto. tauto. }
+      assert (SS1 : StronglySorted lt (map ct files1)).
+      { unfold files1. rewrite map_app. cbn [map]. apply SS_snoc; [now apply SS_map_adel|].
+        unfold ct at 2. cbn [snd]. apply Forall_map. apply Forall_adel. exact LT. }
+      destruct (front_put_ok wl ls Hls (d_lru st) k v HL) as (l1 & El & Hl1).
+      pose proof (front_put_refines (d_lru st) k v HL) as FR. rewrite El in *. cbn [fst] in FR.
+      cbn [is_raised].
+      assert (EV : evict_if_needed true files1 (d_max st)
+                   = (match d_max st with Some m => skipn (length files1 - m) files1 | None => files1 end, None)).
+      { unfold evict_if_needed. destruct (d_max st) as [m|]; auto. apply evict_sorted; auto. lia. }
+      rewrite EV. cbn [fst snd]. split.
+      + (* invariant *)
+        destruct (disk_put_spec wl ls Hls st k v Hinv) as (f' & l' & E & I' & _).
+        unfold disk_put in E. fold files1 in E. rewrite El in E. cbn [is_raised] in E. rewrite EV in E.
+        inversion E; subst. split; [exact I'|]. cbn [d_files].
+        destruct (d_max st); [rewrite <- skipn_map; now apply SS_skipn | exact SS1].
+      + unfold disk_abs; cbn [d_files d_lru d_max s_files s_front s_max]. f_equal. f_equal; [|exact FR].
+        assert (ES : map strip files1 = without k (map strip (d_files st)) ++ [(k, v)]).
+        { unfold files1. rewrite map_app, strip_adel by auto. reflexivity. }
+        rewrite <- ES. unfold bound. destruct (d_max st) as [m|]; auto.
+        rewrite skipn_map, !map_length. reflexivity.
+    - (* get *)
+      unfold disk_get. unfold disk_abs; cbn [s_front s_files s_max].
+      rewrite (lru_abs_lookup ls (d_lru st) k HL).
+      destruct (Bool.bool_dec wl true) as [Ew|Ew].
+      + rewrite Ew. cbn [andb]. destruct (amem k (l_dict (d_lru st))) eqn:Em.
+        * destruct (amem_aget _ _ Em) as [v0 Hv0]. rewrite Hv0.
+          pose proof (lru_step_refines unit ls (d_lru st) (Get k) (Hls Ew) HL) as GR.
+          cbn [lru_spec_step lru_step lru_step_with] in GR.
+          rewrite (lru_abs_lookup ls (d_lru st) k HL), Hv0 in GR.
+          destruct (lru_get_ok ls (d_lru st) k HL) as [G1 G2].
+          destruct (lru_get (d_lru st) k) as [l1 o1]. cbn [fst snd] in *. inversion GR; subst. split.
+          -- split; [apply mk_disk_inv; auto | exact SS].
+          -- unfold disk_abs. cbn [d_files d_lru d_max fst snd s_files s_front s_max]. rewrite H0. reflexivity.
+        * rewrite (amem_none _ _ Em), lookup_strip.
+          destruct (aget k (d_files st)) as [vt|] eqn:Ef; cbn [option_map].
+          -- destruct (front_put_ok wl ls Hls (d_lru st) k (fst vt) HL) as (l1 & El & Hl1).
+             pose proof (front_put_refines (d_lru st) k (fst vt) HL) as FR. rewrite Ew in El, FR.
+             rewrite El in *. cbn [fst snd is_raised] in *. split.
+             ++ split; [apply mk_disk_inv; auto | exact SS].
+             ++ unfold disk_abs. cbn [d_files d_lru d_max fst snd s_files s_front s_max]. rewrite FR. reflexivity.
+          -- cbn [fst snd]. split; [split; auto | reflexivity].
+      + apply Bool.not_true_is_false in Ew. rewrite Ew. cbn [andb].
+        rewrite lookup_strip. destruct (aget k (d_files st)) as [vt|] eqn:Ef; cbn [option_map fst snd].
+        * split; [split; auto|]. unfold disk_abs. unfold front_put. reflexivity.
+        * split; [split; auto | reflexivity].
+    - (* in *)
+      cbn [fst snd]. split; [split; auto|]. unfold disk_abs; cbn [s_front s_files s_max].
+      rewrite (lru_abs_lookup ls (d_lru st) k HL), lookup_strip. f_equal. f_equal.
+      unfold amem. destruct (aget k (l_dict (d_lru st))), (aget k (d_files st)); reflexivity.
+    - cbn [fst snd]. split; [split; auto|]. unfold disk_abs; cbn [s_files]. now rewrite map_length.
+    - cbn [fst snd]. split; [|reflexivity]. split; [|constructor].
+      apply mk_disk_inv; [constructor | constructor | constructor | apply lru_inv_empty].
+    - cbn [fst snd]. split; [|reflexivity]. split; [|exact SS].
+      apply mk_disk_inv; auto. apply lru_inv_empty.
+  Qed.
+
+  (* disk_refines: on every sequence of put/get/in/len/clear/reopen the code produces exactly the outputs of
+     the creation-ordered bounded file list with an LRU front *)
+  Theorem disk_refines : forall D m0 (ops : list (dop D)),
+    run_ops (disk_step wl ls true) (disk_open [] 0 m0) ops
+    = run_ops (disk_spec_step wl ls) (mkDS [] [] m0) ops.
+  Proof.
+    intros D m0 ops.
+    apply (refines_gen _ _ _ (disk_step wl ls true) (disk_spec_step wl ls) disk_good disk_abs).
+    - intros st o H. apply (disk_step_refines D st o H).
+    - intros st o H. apply (disk_step_refines D st o H).
+    - split; [apply disk_open_inv | constructor].
+  Qed.
+End DiskRefines.
